@@ -85,6 +85,10 @@ def alphabet_models(tier):
         out.append(rt.deviation(base, 1, ('attr', ('big%d' % j, v))))
     out.append(cm.on_carrier([('GREATER', 'x.att', 2 ** 53 + 1)]))
     out.append(cm.on_carrier([('EQUALS', ('ADD', 'x.att', 9007199254740993), -2 ** 63 + 1)]))
+    for m in rt.collision_models():
+        if not any('"' in n or '.' in n for n in sh.names(m)):
+            out.append((m[0], tuple((n, ('IMPLIES', t[1], ('NOT', t[2], None)) if t[0] == 'EXCLUDES' else ('IMPLIES', t[1], t[2])) for n, t in m[1])))
+    out.append(cm.on_carrier([('IMPLIES', 'x', 'y'), ('IMPLIES', 'x', 'y'), ('AND', 'x', 'z'), ('IMPLIES', 'x', 'y')]))
     trees = list(sp.trees(1, ['x', 'y', 'z'], OPS))
     k2 = sp.trees(2, ['x', 'y', 'z'], OPS)
     step = max(1, len(k2) // (60 if tier == 'quick' else 400))
